@@ -23,12 +23,12 @@ UPD = ["upd.args", "upd.constrained", "upd.kept", "upd.weight", "upd.discard", "
 ALLP = ["D0", "SOne", "SChain", "SIndep", "SNest", "SLit", "S2", "VmD", "VmS", "VmAx", "VmAx2", "VmMask", "Rep", "Rep3",
         "Sc1", "Sc2", "Sc3", "ScSw", "SwXY", "SwSame", "Sw3", "SSw", "SVm", "Msk", "MskD", "Dm", "Dm2", "DmMap", "DmCon",
         "DmSc", "OrE", "MixE", "Acc", "Red", "It", "ItF", "MIt", "MItF", "MItF1"]
-FAST = ["VmAx1", "STup3", "D0", "SOne", "SChain", "SIndep", "SNest", "SLit", "S2", "SDm", "MskSw", "VmSw", "SwN", "VmD", "VmS", "VmAx", "VmAx2", "VmMask", "Rep", "Rep3",
+FAST = ["VmAx1", "STup3", "SNest2", "D0", "SOne", "SChain", "SIndep", "SNest", "SLit", "S2", "SDm", "MskSw", "VmSw", "SwN", "VmD", "VmS", "VmAx", "VmAx2", "VmMask", "Rep", "Rep3",
         "SwXY", "SwSame", "Sw3", "SSw", "SVm", "Msk", "MskD", "Dm", "Dm2", "DmMap", "DmCon", "OrE", "MixE"]
 SLOW = ["Sc1", "Sc2", "Sc3", "ScSw", "DmSc", "Acc", "Red", "It", "ItF"]    # masked-iterate programs belong to C16 only
-EAGER = ["STup3", "CloPK", "CloPK2", "Clo1", "Clo2", "Clo0", "CloP", "CloK", "D0", "SOne", "SChain", "SIndep", "SNest", "SLit", "S2", "SDup", "Dm", "Dm2", "DmMap", "DmCon", "Msk", "MskD"]
+EAGER = ["STup3", "SNest2", "CloPK", "CloPK2", "Clo1", "Clo2", "Clo0", "CloP", "CloK", "D0", "SOne", "SChain", "SIndep", "SNest", "SLit", "S2", "SDup", "Dm", "Dm2", "DmMap", "DmCon", "Msk", "MskD"]
 EAGER_ND = [x for x in EAGER if x != "SDup"]
-REGEN = ["STup3", "D0", "SOne", "SChain", "SIndep", "SNest", "S2", "SDm", "Dm", "Dm2", "DmMap", "DmCon"]
+REGEN = ["STup3", "SNest2", "D0", "SOne", "SChain", "SIndep", "SNest", "S2", "SDm", "Dm", "Dm2", "DmMap", "DmCon"]
 REGEN_SLOW = ["Sc1", "Sc2", "DmSc", "It"]
 PROJ = ["D0", "SOne", "SChain", "SIndep", "SNest", "S2", "VmD", "VmS", "VmAx", "Rep", "SwXY", "SwSame", "Sw3", "SSw", "SVm",
         "Dm", "Dm2", "OrE", "MixE"]
@@ -101,7 +101,7 @@ PROFILES = {
                 gens=[dict(ids=[x for x in FAST if x not in ("SwXY", "Sw3", "SSw", "OrE", "MixE")], first=["generatemask"], edits=["updatemask", "updatemask", "update"], depth=2, n=(128, 2400)),
                       dict(ids=["Sc1", "Sc2", "Acc"], first=["generatemask"], edits=["updatemask"], depth=1, n=(24, 300))]),
     "C38": dict(own=["derived.run", "derived.same", "empty.identity", "static.others", "upd.constrained", "upd.args", "nochange", "upd.kept", "upd.weight"] + TRC,
-                gens=[dict(ids=FAST + ["SNest", "SDm", "SSw", "SVm", "STup3"], first=["simulate", "generate"], edits=["update", "regenerate", "empty", "empty", "staticreq", "staticreq", "diffannotate"], depth=3, n=(128, 2400)),
+                gens=[dict(ids=FAST + ["SNest", "SNest2", "SNest2", "SDm", "SSw", "SVm", "STup3"], first=["simulate", "generate"], edits=["update", "regenerate", "empty", "empty", "staticreq", "staticreq", "diffannotate"], depth=3, n=(128, 2400)),
                       dict(ids=SLOW, first=["simulate", "generate"], edits=["update", "empty"], depth=1, n=(24, 400))]),
 }
 
